@@ -465,10 +465,12 @@ pub fn gen_matrix(rng: &mut Rng) -> [f64; 9] {
 
 pub fn gen_angle(rng: &mut Rng) -> f64 {
     let pi = std::f64::consts::PI;
-    match rng.below(8) {
+    match rng.below(9) {
         0 => 0.0,
         1 => *rng.pick(&[pi / 2.0, pi, 2.0 * pi, pi / 6.0, pi / 3.0, pi / 4.0, 3.0 * pi / 2.0]),
         2 => next_down(2.0 * pi),
+        // tiny turns: the cosine is 1 to twelve digits while the sine is not negligible
+        8 => *rng.pick(&[1e-6, -1e-6, 1e-7, 3e-7, -5e-7, 2.0 * pi - 1e-6, 1e-9, pi + 1e-6, pi / 2.0 - 1e-7]),
         3 => rng.range(-10.0, 10.0),
         _ => rng.range(0.0, 2.0 * pi),
     }
@@ -727,9 +729,14 @@ pub fn gen_scripted(rng: &mut Rng) -> String {
     s.push_str(&format!(" {}", nh));
     for h in 0..nh {
         let a = if h < nc && !rng.chance(1, 8) { h } else { rng.usize(nc) };
-        let (lo, hi) = match rng.below(3) {
-            0 => (-0.5, 0.5),
-            1 => (vals[a] - rng.range(0.0, 0.2), vals[a] + rng.range(0.0, 0.2)),
+        let (lo, hi) = match rng.below(8) {
+            0 | 1 => (-0.5, 0.5),
+            2 | 3 => (vals[a] - rng.range(0.0, 0.2), vals[a] + rng.range(0.0, 0.2)),
+            // a parameter that cannot move (upper limit = lower limit = its value), as the cell ratio of
+            // a state whose ratio is 0.1, or the cell length 0.01
+            4 => (vals[a], vals[a]),
+            // an inverted range (lower limit above the upper one), as for a ratio below 0.1
+            5 if rng.chance(1, 2) => (vals[a] + 0.05, vals[a]),
             _ => (rng.range(-1.0, -0.5), rng.range(0.5, 1.0)),
         };
         s.push_str(&format!(" {} {} {}", a, fhex(lo), fhex(hi)));
@@ -884,7 +891,17 @@ pub fn gen_state_desc(rng: &mut Rng, dense: bool) -> String {
     let n: f64 = match g { "p1" => 1.0, "p2" | "p1m1" | "p1g1" => 2.0, _ => 4.0 };
     // side lengths in units of a typical shape size (enclosing radius ~ 1..2)
     let length = if dense { rng.range(1.2, 3.5) * n.sqrt() } else { rng.range(1.0, 9.0) * n.sqrt() };
-    let ratio = match rng.below(5) { 0 => 1.0, 1 => rng.range(0.3, 0.5), _ => rng.range(0.5, 1.0) };
+    let mut ratio = match rng.below(5) { 0 => 1.0, 1 => rng.range(0.3, 0.5), _ => rng.range(0.5, 1.0) };
+    let mut length = length;
+    if rng.chance(1, 12) {
+        // ratio at or below the lower limit 0.1 of its handle (fixed / inverted range); the long side is
+        // chosen so that the short one still clears the shape
+        ratio = *rng.pick(&[0.1, 0.09, 0.1, 0.07]);
+        length = rng.range(28.0, 40.0);
+    } else if lj && rng.chance(1, 12) {
+        // a cell shorter than the lower limit 0.01 of its length handle (every LJ state has a score)
+        length = *rng.pick(&[0.01, 0.005, 0.008]);
+    }
     let mono = g == "p1" || g == "p2";
     let angle = if mono { match rng.below(4) { 0 => pi / 2.0, 1 => pi / 6.0, _ => rng.range(pi / 6.0, pi / 2.0) } } else { pi / 2.0 };
     let a = match rng.below(5) { 0 => 0.0, 1 => 2.0 * pi, _ => rng.range(0.0, 2.0 * pi) };
@@ -919,7 +936,8 @@ fn gen_state_req(rng: &mut Rng) -> String {
 pub fn gen_cfg_small(rng: &mut Rng) -> String {
     let steps = *rng.pick(&[0u64, 5, 20, 40, 60, 100]);
     let inner = *rng.pick(&[0u64, 1, 7, 10, 20, 1000]);
-    let kt_start = *rng.pick(&[0.0, 0.0, 0.1, 0.01, 1.0]);
+    // every temperature >= 0 is a legal setting, +inf included (`--kt-start inf`)
+    let kt_start = *rng.pick(&[0.0, 0.0, 0.1, 0.01, 1.0, 0.1, 1.0, f64::INFINITY]);
     let kt_finish = Some(*rng.pick(&[0.001, 0.0, 0.05]));
     let kt_ratio = *rng.pick(&[None, None, Some(0.0), Some(0.1), Some(2.0)]);
     let max_step = *rng.pick(&[0.01, 0.001, 0.1, 0.5, 1.0]);
